@@ -67,6 +67,33 @@ Fixpoint pack_items (tys : list ty) (vs : list val) : option (list (bool * bytes
   end.
 Definition pack_values (tys : list ty) (vs : list val) : option bytes := option_map layout (pack_items tys vs).
 
+(* ---- the padding of dynamic values, spelled out.
+   The decoder never reads the bytes between the end of a string / bytes content and the next multiple of 32
+   (toGoType: output[begin : begin+length]); whether they are zero is decided by the packer alone.  [pad_len c] is
+   their number; [dyn_tail c] is the one tail of the content c that the packer writes: length word, content, zeros.
+   [padded_item]: the packed item of a top-level string / bytes argument is a tail of exactly that shape. *)
+Definition pad_len (c : bytes) : Z := (32 - len c mod 32) mod 32.
+Definition dyn_tail (c : bytes) : bytes := word256 (len c) ++ c ++ repeat 0 (Z.to_nat (pad_len c)).
+Definition padded_item (t : ty) (v : val) (it : bool * bytes) : Prop :=
+  match t with
+  | TString | TBytes => exists c, v = VBytes c /\ it = (true, dyn_tail c)
+  | _ => True
+  end.
+(* the tails of a layout, in the order of the items *)
+Fixpoint tails_of (items : list (bool * bytes)) : bytes :=
+  match items with
+  | [] => []
+  | (true, p) :: r => p ++ tails_of r
+  | (false, _) :: r => tails_of r
+  end.
+
+(* a packer that does not pad with zeros but with whatever [fill] gives it for this content (pack.go packBytesSlice
+   with a RightPadBytes that re-slices the value into the capacity of its backing array: for a value handed out by
+   the decoder the backing array is the call data itself and the bytes behind the content are the sender's padding).
+   Only the shape is modelled: the same number of bytes, any values. *)
+Definition dyn_tail_with (fill : bytes -> bytes) (c : bytes) : bytes :=
+  word256 (len c) ++ c ++ firstn (Z.to_nat (pad_len c)) (fill c ++ repeat 0 32).
+
 (* the canonical packing of what the argument bytes decode to *)
 Definition canonical_of (tys : list ty) (data : bytes) : option bytes :=
   match unpack_values tys data with UOk vs => pack_values tys vs | _ => None end.
